@@ -14,5 +14,5 @@ Extraction "model.ml" conv_anchor
   Pick.pick_cube_bdd Pick.pick_cube_dd_bdd Pick.pick_cube_dd_set_bdd Pick.pick_uniform_bdd
   Pick.pick_cube_bcdd Pick.pick_cube_dd_bcdd Pick.pick_cube_dd_set_bcdd Pick.pick_uniform_bcdd
   Pick.pick_cube_z Pick.pick_cube_dd_z Pick.pick_cube_dd_set_z Pick.pick_uniform_z
-  Pick.cube_lits Pick.mk_cube Pick.add_lit_bdd Pick.add_lit_bcdd Pick.add_lit_z
+  Pick.cube_lits Pick.cube_lits_z Pick.zlit_of Pick.mk_cube Pick.add_lit_bdd Pick.add_lit_bcdd Pick.add_lit_z
   Pick.trace_weight Pick.count_bdd Pick.count_bcdd Pick.count_zbdd Pick.uni_choice Pick.uni_choice_z.
